@@ -127,6 +127,7 @@ func isForgedDecline(fr []byte) bool {
 }
 
 type rawStep struct {
+	dest    string // a reply that did not go where the request came from ("" = fine)
 	impl    string // canonical result of the event ("" = frame not dispatched to the handler)
 	pre     string
 	cfg     string
@@ -138,6 +139,7 @@ type rawStep struct {
 func runRawEv(w *c11.World, e rawEv) rawStep {
 	var st rawStep
 	frame, buf := rawFrame(e)
+	srcMAC := append([]byte{}, frame[6:12]...) // the buffer is overwritten after the call
 	fr, err := w.S.Parse(frame)
 	if err != nil || fr.PayloadID != packet.PayloadDHCP4 {
 		st.why = "Session.Parse does not hand the frame to the DHCPv4 processor"
@@ -177,6 +179,11 @@ func runRawEv(w *c11.World, e rawEv) rawStep {
 				s += "!" + strings.ReplaceAll(r.Bad, " ", "_")
 			}
 			reps = append(reps, s)
+			// destination (the model knows broadcast / unicast only): a unicast reply goes to the sender's MAC and IP
+			// source, a broadcast one is sent because the datagram had no source address
+			if !r.BCast && (!bytes.Equal(r.DstMAC, srcMAC) || r.DstIP != e.src) {
+				st.dest = fmt.Sprintf("unicast %s sent to %x / %d, the request came from %x / %d", s[:strings.Index(s, ":")], r.DstMAC, r.DstIP, srcMAC, e.src)
+			}
 		} else if isForgedDecline(f) {
 			declines++
 		}
@@ -253,6 +260,7 @@ func evalRaw(c *core.Ctx, f []string) *core.Case {
 			Oracle: func() (string, string) { return why, "" }}
 	}
 	var impls, pres, done []string
+	dest := ""
 	cfg := ""
 	trivial := true
 	broken := ""
@@ -266,6 +274,9 @@ func evalRaw(c *core.Ctx, f []string) *core.Case {
 			break
 		}
 		cfg = st.cfg
+		if st.dest != "" {
+			dest = st.dest
+		}
 		impls = append(impls, st.impl)
 		pres = append(pres, st.pre)
 		done = append(done, e.String())
@@ -284,6 +295,9 @@ func evalRaw(c *core.Ctx, f []string) *core.Case {
 		Oracle: func() (string, string) {
 			if broken != "" {
 				return "dhcp4.ProcessPacket: the call did not return normally (" + broken + ") on a raw payload", ""
+			}
+			if dest != "" {
+				return "dhcp4 reply destination: " + dest, ""
 			}
 			return "", ""
 		}}
